@@ -61,7 +61,7 @@ func VerifC13Snapshot() {
 		// heads have equal or different clock times, whichever writer sorts first);
 		// optionally a later local write merges the two heads
 		nb := 1
-		if t > 2 {
+		if t > 2 && sizes == 0 {
 			nb = 1 + vstub.NdChoice("remote-len", t-1)
 		}
 		addN(bw, nb, 'b')
@@ -72,7 +72,7 @@ func VerifC13Snapshot() {
 		}
 		vstub.WaitIdle()
 		vstub.Cover("replicated")
-		if vstub.NdChoice("merge-write", 2) == 1 {
+		if sizes == 0 && vstub.NdChoice("merge-write", 2) == 1 {
 			addN(&a.BaseStore, 1, 'm')
 			vstub.Cover("merged")
 		}
